@@ -109,7 +109,108 @@ def pre_state(progA: Prog, progB: Prog, I: Interp):
     return env
 
 
-def compare_stages(A: Prog, B: Prog, tvars, D, types, stats, tag, timeout_ms=30000, want_mutant=False):
+def rhs_symbols(a):
+    """symbols read by the right-hand side of an assignment (not by its condition)"""
+    out = set()
+    if a.kind == "choice":
+        for v, p in a.payload:
+            out |= v.symbols_deep() | p.symbols_deep()
+    elif a.kind == "dist":
+        for q in a.payload[1]:
+            out |= q.symbols_deep()
+    else:
+        out.add(str(a.payload[1]))
+    return out
+
+
+def is_standin(a):
+    return a.kind == "dist" and a.payload[0] == "Bernoulli" and len(a.payload[1]) == 1 and \
+        any(sy.startswith("_prob") for sy in a.payload[1][0].symbols())
+
+
+def abstraction_probs(prev: Prog, final: Prog):
+    """The normalizer replaces a condition C over non-finite, iteration-independent variables by a Bernoulli(_probK)
+    stand-in 'where _probK = P(C at this position)'.  The value of every _probK is computed here by the reference
+    semantics: the backward slice of C's variables in the stage before the normalizer (unconditional draws and
+    polynomial assignments only) is executed from the empty state and C is integrated over it.
+    -> {symbol: Fraction};  raises Unsupported when the slice is not of that simple shape"""
+    from vlib.lang import cond_symbols
+    vals = {}
+    for lst_prev, lst_final in ((prev.initial, final.initial), (prev.body, final.body)):
+        if any(not hasattr(a, "kind") for a in lst_prev + lst_final):
+            raise Unsupported("stage not flattened")
+        seen = 0
+        for i, a in enumerate(lst_final):
+            if not is_standin(a):
+                continue
+            sym = [sy for sy in a.payload[1][0].symbols() if sy.startswith("_prob")][0]
+            j = i - seen
+            seen += 1
+            cnd = final.abstr.get(sym)
+            if cnd is None:
+                raise Unsupported(f"no stored condition for {sym}")
+            assigned = set(prev.assigned_vars())
+            need = {v for v in cond_symbols(cnd) if v in assigned}
+            chosen = []
+            for b in reversed(lst_prev[:j]):
+                if b.var in need:
+                    if b.cond != ("true",):
+                        raise Unsupported("slice of an abstracted condition contains a conditional assignment")
+                    chosen.insert(0, b)
+                    need.discard(b.var)
+                    need |= {v for v in rhs_symbols(b) if v in assigned}
+            if need:
+                raise Unsupported(f"abstracted condition reads {sorted(need)} from the previous iteration")
+            I = Interp(Prog({}, [], ("true",), chosen))
+            paths = I.exec_list(I.start(), chosen)
+            tot = QPoly()
+            for p_ in paths:
+                for v, p2 in I.decide(p_, I.cond(cnd, p_.env, p_)):
+                    if p2.pc:
+                        raise Unsupported("symbolic condition in the slice of an abstracted condition")
+                    if v:
+                        tot = tot + I.integrate(p2.w, p2.draws, p2.dc)
+            if not tot.is_const():
+                raise Unsupported(f"P({sym}) is not a constant: {tot!r}")
+            vals[sym] = tot.cval()
+    return vals
+
+
+def abstraction_classes(prev: Prog, final: Prog):
+    """-> (Wd, G): Wd = variables that carry the randomness of an abstracted condition's variables unconditionally
+    (the condition's variables, what they were computed from, what is computed from them outside the abstracted
+    branch); G = variables assigned under an abstracted condition (and what is computed from those)."""
+    from vlib.lang import cond_symbols
+    assigns = [a for a in prev.initial + prev.body if hasattr(a, "kind")]
+    allv = set(prev.assigned_vars())
+    C = set()
+    for c in final.abstr.values():
+        C |= cond_symbols(c) & allv
+    guarded = lambda a: bool(cond_symbols(a.cond) & C)
+    Wd = set(C)
+    changed = True
+    while changed:
+        changed = False
+        for a in assigns:
+            r = rhs_symbols(a) & allv
+            if a.var in Wd and not guarded(a) and not r <= Wd:
+                Wd |= r
+                changed = True
+            if not guarded(a) and (r & Wd) and a.var not in Wd:
+                Wd.add(a.var)
+                changed = True
+    G = {a.var for a in assigns if guarded(a)}
+    changed = True
+    while changed:
+        changed = False
+        for a in assigns:
+            if a.var not in G and ((rhs_symbols(a) | cond_symbols(a.cond)) & G):
+                G.add(a.var)
+                changed = True
+    return Wd, G
+
+
+def compare_stages(A: Prog, B: Prog, tvars, D, types, stats, tag, timeout_ms=30000, want_mutant=False, param_vals=None, all_cex=False):
     """-> list of records; one iteration from the shared arbitrary pre-state and the initial block"""
     import z3
     recs = []
@@ -122,7 +223,7 @@ def compare_stages(A: Prog, B: Prog, tvars, D, types, stats, tag, timeout_ms=300
         Is, exps = [], []
         try:
             for prog in (A, B):
-                I = Interp(prog, unset_suffix="" if phase == "step" else "0", max_paths=8000)
+                I = Interp(prog, unset_suffix="" if phase == "step" else "0", max_paths=8000, param_vals=param_vals)
                 Is.append(I)
             zshare = Is[0].z
             Is[1].z = zshare
@@ -163,11 +264,15 @@ def compare_stages(A: Prog, B: Prog, tvars, D, types, stats, tag, timeout_ms=300
                 recs.append({"kind": "inconclusive", "tag": f"{tag}:{phase}:E[{mq!r}]", "why": "solver unknown"})
             elif v == "sat":
                 recs.append({"kind": "cex", "phase": phase, "monomial": repr(mq), "mq": mq, "model": model, "names": sorted(zshare)})
-                break
+                if not all_cex:
+                    break
     return recs, info
 
 
 def concrete_expect(prog: Prog, phase, mq, vals, types_env=None, preenv=None):
+    from vlib.distref import PHI0
+    vals = dict(vals)
+    vals.setdefault(PHI0, Fraction(3989422804, 10 ** 10))   # 1/sqrt(2 pi) to ten digits (half-normal moments)
     I = Interp(prog, unset_suffix="" if phase == "step" else "0", param_vals=vals, max_paths=60000)
     if phase == "step":
         env = {k: I.val({}, q) for k, q in preenv.items()}
@@ -206,10 +311,18 @@ def job(item):
             out["records"].append({"kind": "inconclusive", "tag": f"{pid}:{oname}", "why": f"stage not readable: {bad[0][0]} {bad[0][1]}"[:150]})
             continue
         types = dict(stages[-1][1].types)
-        if any(a.kind == "dist" and a.payload[0] == "Bernoulli" and any("_prob" in s for q in a.payload[1] for s in q.symbols())
-               for a in stages[-1][1].all_assigns(stages[-1][1].body)):
-            out["records"].append({"kind": "inconclusive", "tag": f"{pid}:{oname}", "why": "Bernoulli abstraction of a non-finite condition (outside this check)"})
-            continue
+        final_ir = stages[-1][1]
+        prob_vals, classes = None, None
+        if any(is_standin(a) for a in final_ir.all_assigns(final_ir.initial + final_ir.body)):
+            # Bernoulli stand-ins for conditions over non-finite variables: their probabilities come from the reference
+            prev = [st for st in stages if not any(is_standin(a) for a in st[1].all_assigns(st[1].initial + st[1].body))][-1][1]
+            try:
+                prob_vals = abstraction_probs(prev, final_ir)
+                classes = abstraction_classes(prev, final_ir)
+            except (Unsupported, ZeroDivisionError) as e:
+                out["records"].append({"kind": "inconclusive", "tag": f"{pid}:{oname}", "why": f"Bernoulli abstraction outside the oracle: {e}"[:160]})
+                continue
+            out["abstractions"] = out.get("abstractions", 0) + len(prob_vals)
         chain = [("source(own reader)", src)] + stages
         pairs = []
         for (na, A), (nb, B) in zip(chain, chain[1:]):
@@ -219,7 +332,7 @@ def job(item):
         first = True
         for na, A, nb, B in pairs:
             tag = f"{pid}:{oname}:{na}->{nb}"
-            recs, info = compare_stages(A, B, source_vars, item["D"], types, out["stats"], tag, want_mutant=first)
+            recs, info = compare_stages(A, B, source_vars, item["D"], types, out["stats"], tag, want_mutant=first, param_vals=prob_vals, all_cex=bool(prob_vals))
             out["checked"] += info["queries"]
             out["stages"] += 1
             if first and info["mutant"] is not None:
@@ -232,6 +345,9 @@ def job(item):
                     out["records"].append(r)
                     continue
                 vals = mc.sym_values(r["model"], r["names"])
+                vals.pop("@phi0", None)
+                if prob_vals:
+                    vals.update(prob_vals)
                 try:
                     Ih = Interp(A)
                     preenv = pre_state(A, B, Ih) if r["phase"] == "step" else None
@@ -243,10 +359,19 @@ def job(item):
                 if va == vb:
                     out["records"].append({"kind": "harness", "tag": tag, "why": f"model did not replay ({r['monomial']})"})
                     continue
+                key = f"{pid}|{oname}|{nb}"
+                if classes:
+                    Wd, G = classes
+                    mv = r["mq"].symbols()
+                    if any(a in Wd and a not in G for a in mv) and any(b in G for b in mv):
+                        # the stand-in is independent of the variables its condition was about: their joint law is lost
+                        key = "abstraction|joint moment of a variable of the abstracted condition and a variable assigned under it"
                 what = (f"pass {nb} (after {na}, options {oname}) changes E[{r['monomial']}] of "
                         f"{'one iteration from pre-state' if r['phase'] == 'step' else 'the initial block at'} "
                         f"{dict((k, str(v)) for k, v in vals.items() if v != 0 or k in source_vars)}: {va} before, {vb} after")
-                out["records"].append({"kind": "violation", "key": f"{pid}|{oname}|{nb}", "tag": tag, "what": what,
+                if prob_vals:
+                    what += f" (stand-in probabilities {dict((k, str(v)) for k, v in prob_vals.items())})"
+                out["records"].append({"kind": "violation", "key": key, "tag": tag, "what": what,
                                        "replay": {"text": text, "opts": opts, "pass": nb, "after": na, "phase": r["phase"], "monomial": r["monomial"],
                                                   "values": {k: str(v) for k, v in vals.items()}, "before": str(va), "after_value": str(vb),
                                                   "program_before": repr(A), "program_after": repr(B)}})
@@ -260,6 +385,8 @@ def build_items(run):
     D = 2 if run.quick else 3
     for pid, text, goals in families.corpus():
         items.append({"id": pid, "text": text, "optsets": OPTION_SETS, "D": 3})
+    for pid, text, goals in families.corpus("corpus_abs"):
+        items.append({"id": "abs/" + pid, "text": text, "optsets": OPTION_SETS[:2], "D": 3})
     for pid, text, goals in families.repo_benchmarks(run.quick, run.seed, limit_quick=12):
         if "defective" in pid or "development" in pid:
             continue
@@ -311,7 +438,7 @@ def main():
                      "ConditionsToArithm", "inputparser.structure_transformer:StructureTransformer (parsed program vs own reading of the text)"]
     run.bounds = {"family": "corpus + repo benchmarks within the oracle + generated family + symbolic templates", "test_functions": "monomials over the source variables up to total degree 2 (quick) / 3 (thorough), <= 28 per pair",
                   "pre_state": "arbitrary (typed variables in their Polar type, auxiliaries unconstrained, loop constants tied to their initial value) => all iteration counts",
-                  "options": [",".join(sorted(o)) or "default" for o in OPTION_SETS], "outside": "trivial_guard (changes meaning by design); Bernoulli abstraction of non-finite conditions; functional assignments; TruncNormal"}
+                  "options": [",".join(sorted(o)) or "default" for o in OPTION_SETS], "outside": "trivial_guard (changes meaning by design); functional assignments; TruncNormal; Bernoulli abstraction of conditions other than thresholds on one Uniform draw (constant bounds) or on a Normal/Laplace draw at its location"}
     run.assumptions = ["finite types Polar holds are sound (C05)", "equality of laws is observed through moments up to the stated degree (exact for finitely-valued variables with at most degree+1 values)",
                        "probabilities in [0,1], admissible distribution parameters"]
     run.coverage["pass_pairs_compared"] = passes
